@@ -67,6 +67,21 @@ def body_cases(rnd, quick):
     for kind, cuts in (("stream", [2500, 2500]), ("sized", [5000]), ("bytes", [5000])):
         for coding in ("gzip", "br", "identity"):
             cases.append({"kind0": "body", "accept": coding, "resp": resp(5000, kind, cuts, user_cl=True)})
+    # the same responses over a real HTTP/1.1 connection: what the head announces must delimit the encoded body
+    for coding in ("gzip", "br", "deflate", "zstd", "identity", None):
+        for n in (0, 100, 5000, 70000):
+            for kind, cuts in (("bytes", [n]), ("stream", [n // 2, n - n // 2]), ("sized", [n])):
+                if n == 0:
+                    kind, cuts = "empty", []
+                for flag in ({}, {"user_cl": True}, {"no_chunking": True}):
+                    if flag and kind in ("bytes", "empty"):
+                        continue
+                    c = {"kind0": "wire", "resp": resp(n, kind, cuts, **flag)}
+                    if coding:
+                        c["accept"] = coding
+                    cases.append(c)
+    for status in (204, 206):
+        cases.append({"kind0": "wire", "accept": "gzip", "resp": resp(2000, "bytes", status=status)})
     for coding in ("gzip", "deflate", "br", "zstd", "identity"):
         for n in (0, 1, 100, 2048, 2049, 2050, 100000):
             cases.append({"kind0": "reqbody", "coding": coding, "n": n, "content": rnd.choice(["text", "random", "zeros"])})
@@ -104,7 +119,8 @@ def run(rep):
                        "(negotiation checked against RFC 7231 5.3.4 Permitted, also for an incompressible content type), and the streaming encoder "
                        "state machine over chunk classes; bodies of 0..300000 bytes around the 1 KiB / 2 KiB thresholds x chunkings (with empty "
                        "chunks, Pending between chunks) x body kinds x codings decoded with the codec libraries directly; the pass-through set; "
-                       "handler-set Content-Length; request bodies in every coding. distinct = cases")
+                       "handler-set Content-Length; the same responses (plus declared lengths via no_chunking) read from a real HTTP/1.1 keep-alive "
+                       "connection on loopback by a byte-level client; request bodies in every coding. distinct = cases")
     for c in cases[:1] + cases[-2:]:
         rep.sample(c)
     tpath = ar.run_cases(cases, "all")
